@@ -168,7 +168,7 @@ Ltac leaf1 :=
       repeat match goal with |- _ /\ _ => split end; intros;
       first [ lfin | subst; lfin | spec_all; subst; lfin ]
   end.
-Ltac leaf := constructor; leaf1.
+Ltac leaf := cbn in *; constructor; leaf1.
 
 Section Step.
 Variable c : cfg.
@@ -181,33 +181,33 @@ Ltac start s H o :=
 
 Lemma inv_dataA s d : INV c s -> legal s (DataA d) = true -> INV c (apply c s (DataA d)).
 Proof.
-  start s H o. intros Hl. db ta. db ea. destruct p; db pb; leaf.
+  start s H o. intros Hl. try db ta. try db ea. destruct p; try db pb; leaf.
 Qed.
 
 Lemma inv_dataB s d : INV c s -> legal s (DataB d) = true -> INV c (apply c s (DataB d)).
 Proof.
-  start s H o. intros Hl. db pb. db eb. db lb. destruct p; cbn in *; spec_all; try discriminate.
-  db ta; leaf.
+  start s H o. intros Hl. try db pb. try db eb. try db lb. destruct p; cbn in *; spec_all; try discriminate.
+  try db ta; leaf.
 Qed.
 
 Lemma inv_eofA s : INV c s -> legal s EofA = true -> INV c (apply c s EofA).
 Proof.
-  start s H o. intros Hl. db ta. db ea. destruct p; db pb; try db eb; leaf.
+  start s H o. intros Hl. try db ta. try db ea. destruct p; try db pb; try db eb; leaf.
 Qed.
 
 Lemma inv_closeA s : INV c s -> legal s CloseA = true -> INV c (apply c s CloseA).
 Proof.
-  start s H o. intros Hl. db la. db ta; destruct p; db pb; leaf.
+  start s H o. intros Hl. try db la. try db ta; destruct p; try db pb; leaf.
 Qed.
 
 Lemma inv_closeB s : INV c s -> legal s CloseB = true -> INV c (apply c s CloseB).
 Proof.
-  start s H o. intros Hl. destruct p; cbn in *; try discriminate. db lb. db ta; db pb; leaf.
+  start s H o. intros Hl. destruct p; cbn in *; try discriminate. try db lb. try db ta; try db pb; leaf.
 Qed.
 
 Lemma inv_fail s : INV c s -> legal s Fail = true -> INV c (apply c s Fail).
 Proof.
   start s H o. intros Hl. destruct p; cbn in *; try discriminate. spec_all. subst. inversion H1; subst.
-  db ta; leaf.
+  try db ta; leaf.
 Qed.
 End Step.
